@@ -27,7 +27,7 @@ TIERS = {
     },
     "thorough": {
         "edges": [("sock5", None), ("sockall4", None), ("pipe4", None), ("listener4", None), ("unconn4", None),
-                  ("invalid3", None), ("mixed3", None), ("two3", 6000), ("mixed4", 6000), ("two4", 6000)],
+                  ("invalid3", None), ("mixed3", None), ("two3", 6000)],
         "hist": [("hist8", 8, 6000, 3000), ("hist12", 12, 4000, 2000)],
         "tlc_timeout": 3000, "t2_fraction": 1.0,
     },
